@@ -18,9 +18,22 @@ seed = common.seed()
 NH = 400 if tier == "quick" else 12000
 r = conc.run_conc("lin", NH, clients=5, ops=5, seed=seed)
 churn = conc.run_conc("deadlock", 160 if tier == "quick" else 3000, clients=6, ops=6, seed=seed + 7)
+# the same two drivers built with Go's race detector: an access to shared memory that no lock orders with a conflicting one
+# is reported whether or not the two happened to collide this time
+rr = conc.run_conc("lin", 1200 if tier == "quick" else 12000, clients=6, ops=6, seed=seed + 13, race=True)
+rc = conc.run_conc("deadlock", 160 if tier == "quick" else 2000, clients=6, ops=6, seed=seed + 17, race=True)
+rp = conc.run_conc("pairs", 0, clients=2, ops=1, seed=seed, race=True)      # every pair of a family's single-key commands on one key
 cov = {"states": 0, "transitions": 0, "traces_validated_against_impl": 0, "samples": [], "histories": r["histories"], "operations": r["operations"],
        "churn_histories": churn["histories"], "churn_operations": churn["operations"], "quiescent_points_checked": r["histories"] + churn["histories"]}
-for src in (r, churn):
+for src in (rr, rc, rp):
+    for rc_ in src["races"]:
+        v.report({"branch": "conc.race", "kind": "data-race", "detail": " || ".join(sorted(rc_["sites"]))[:160]}, rc_,
+                 what="unsynchronised accesses to the same memory by two commands (Go race detector, %d reports): %s" % (rc_["count"], " and ".join(rc_["sites"])))
+cov["race_detector_histories"] = rr["histories"] + rc["histories"] + rp["histories"]
+cov["race_detector_operations"] = rr["operations"] + rc["operations"] + rp["operations"]
+cov["race_detector_command_pairs"] = rp["histories"]
+cov["race_reports"] = sum(x["count"] for src in (rr, rc, rp) for x in src["races"])
+for src in (r, churn, rr, rc, rp):
     for a in src["anomalies"]:
         if a["kind"] == "deadlock" and src is churn:
             # deadlocks belong to C13; here only when a panic wedged the others
